@@ -1,44 +1,89 @@
-(* one statement at a time: the pieces of VarProg's list functions, and their unfolding lemmas *)
+(* unfolding lemmas and small facts about model/VarProg.v, shared by the three proofs about programs *)
 From Coq Require Import List ZArith NArith Bool Arith Lia.
 Require Import RV.model.Syntax RV.model.Compiler RV.model.ScalarFrag RV.model.VarProg.
 Import ListNotations.
 Local Open Scope nat_scope.
 
-Definition next_k (k : nat) (s : stmt) : nat := match s with SDecl _ => S k | _ => k end.
-Definition embed_stmt (names : list (list N)) (k : nat) (s : stmt) : node :=
-  match s with
-  | SDecl e => NVar (nth k names []) (embed names e)
-  | SSet i e => NAssign (nth i names []) [61%N] (embed names e)
-  | SExpr e => embed names e
-  | SIf c t e => NIf (embed names c) (map (embed_simple names) t) (Some (map (embed_simple names) e))
-  end.
-Definition wf_stmt (k : nat) (s : stmt) : bool :=
-  match s with
-  | SDecl e => wf k e | SSet i e => Nat.ltb i k && wf k e | SExpr e => wf k e
-  | SIf c t e => wf k c && forallb (wf_simple k) t && forallb (wf_simple k) e
-  end.
-
 Lemma embed_stmts_cons names k s r :
   embed_stmts names k (s :: r) = embed_stmt names k s :: embed_stmts names (next_k k s) r.
-Proof. destruct s; reflexivity. Qed.
-Lemma wf_stmts_cons k s r : wf_stmts k (s :: r) = wf_stmt k s && wf_stmts (next_k k s) r.
-Proof. destruct s; cbn [wf_stmts wf_stmt next_k]; rewrite ?andb_assoc; reflexivity. Qed.
-Lemma max_height_cons s r : max_height (s :: r) = Nat.max (stmt_height s) (max_height r).
 Proof. reflexivity. Qed.
-Lemma max_need_cons s r : max_need (s :: r) = Nat.max (stmt_need s) (max_need r).
+Lemma embed_SIf names k c t e : embed_stmt names k (SIf c t e) =
+  NIf (embed names c) (embed_stmts names k t) (Some (embed_stmts names k e)).
 Proof. reflexivity. Qed.
+Lemma embed_SWhile names k c b : embed_stmt names k (SWhile c b) =
+  NFor (Some (embed names c)) None None (embed_stmts names k b).
+Proof. reflexivity. Qed.
+
+Lemma wf_stmts_cons top k s r : wf_stmts top k (s :: r) = wf_stmt top k s && wf_stmts top (next_k k s) r.
+Proof. reflexivity. Qed.
+Lemma wf_SIf top k c t e : wf_stmt top k (SIf c t e) = wf k c && wf_stmts false k t && wf_stmts false k e.
+Proof. reflexivity. Qed.
+Lemma wf_SWhile top k c b : wf_stmt top k (SWhile c b) = wf k c && wf_stmts false k b.
+Proof. reflexivity. Qed.
+Lemma wf_false_next k s : wf_stmt false k s = true -> next_k k s = k.
+Proof. destruct s; try reflexivity. discriminate. Qed.
+Lemma wf_false_top k s : wf_stmt false k s = true -> wf_stmt true k s = true.
+Proof. destruct s; try (intros H; exact H). discriminate. Qed.
+Lemma wf_false_ndecls : forall l k, wf_stmts false k l = true -> ndecls l = 0.
+Proof.
+  induction l as [|s r IH]; intros k H; [reflexivity|].
+  rewrite wf_stmts_cons in H. apply andb_true_iff in H. destruct H as [Hs Hr].
+  destruct s; try discriminate; cbn [ndecls]; exact (IH _ Hr).
+Qed.
+
+Lemma max_height_cons s r : max_height (s :: r) = Nat.max (sheight s) (max_height r).
+Proof. reflexivity. Qed.
+Lemma max_need_cons s r : max_need (s :: r) = Nat.max (sneed s) (max_need r).
+Proof. reflexivity. Qed.
+Lemma sheight_SIf c t e : sheight (SIf c t e) = S (Nat.max (height c) (Nat.max (max_height t) (max_height e))).
+Proof. reflexivity. Qed.
+Lemma sheight_SWhile c b : sheight (SWhile c b) = S (Nat.max (height c) (max_height b)).
+Proof. reflexivity. Qed.
+Lemma sneed_SIf c t e : sneed (SIf c t e) = Nat.max (need c) (Nat.max (max_need t) (max_need e)).
+Proof. reflexivity. Qed.
+Lemma sneed_SWhile c b : sneed (SWhile c b) = Nat.max (need c) (max_need b).
+Proof. reflexivity. Qed.
+Lemma need_pos e : 1 <= need e.
+Proof. induction e; cbn [need]; lia. Qed.
+Lemma max_need_pos l : 1 <= max_need l.
+Proof. induction l as [|s r IH]; [cbn; lia|rewrite max_need_cons; lia]. Qed.
+Lemma sneed_pos s : 1 <= sneed s.
+Proof.
+  destruct s as [e|i e|e|c t e|c b]; try (cbn [sneed]; apply need_pos).
+  - rewrite sneed_SIf. pose proof (need_pos c). lia.
+  - rewrite sneed_SWhile. pose proof (need_pos c). lia.
+Qed.
+
 Lemma ndecls_cons k s r : next_k k s + ndecls r = k + ndecls (s :: r).
 Proof. destruct s; cbn [next_k ndecls]; lia. Qed.
 Lemma embed_is_expression names e : is_expression (embed names e) = true.
 Proof. destruct e; reflexivity. Qed.
+Lemma embed_stmt_is_expression names k s : is_expression (embed_stmt names k s) = is_expr_stmt s.
+Proof. destruct s; try reflexivity. apply embed_is_expression. Qed.
 
-Lemma run_stmts_cons rho s r last : run_stmts rho (s :: r) last =
-  match run_stmt rho s with inl (rho', v) => run_stmts rho' r v | inr x => inr x end.
+(* ---------------------------------------------------------------- source-level meaning *)
+Lemma run_stmts_cons n rho s r last : run_stmts n rho (s :: r) last =
+  match run_stmt n rho s with Some (inl (rho', v)) => run_stmts n rho' r v | other => other end.
 Proof. reflexivity. Qed.
-Lemma run_simples_cons rho m r last : run_simples rho (m :: r) last =
-  match run_simple rho m with inl (rho', v) => run_simples rho' r v | inr x => inr x end.
+Lemma run_SIf n rho c t e : run_stmt (S n) rho (SIf c t e) =
+  match sev rho c with
+  | inl vc => run_stmts n rho (if struthy vc then t else e) VNil
+  | inr x => Some (inr x)
+  end.
+Proof. reflexivity. Qed.
+Lemma run_SWhile n rho c b : run_stmt (S n) rho (SWhile c b) =
+  match sev rho c with
+  | inl vc => if struthy vc then
+                match run_stmts n rho b VNil with
+                | Some (inl (rho', _)) => run_stmt n rho' (SWhile c b)
+                | other => other
+                end
+              else Some (inl (rho, VNil))
+  | inr x => Some (inr x)
+  end.
 Proof. reflexivity. Qed.
 
+(* ---------------------------------------------------------------- emitted code *)
 Lemma pcode_single k base s : pcode k base [s] =
   let '(c, ks) := stmt_code k base s in (c ++ (if is_expr_stmt s then [] else [opNil]), ks).
 Proof. reflexivity. Qed.
@@ -46,17 +91,25 @@ Lemma pcode_cons2 k base s s2 r2 : pcode k base (s :: s2 :: r2) =
   let '(c, ks) := stmt_code k base s in
   let '(cr, kr) := pcode (next_k k s) (base + length ks) (s2 :: r2) in
   (c ++ (if is_expr_stmt s then [opPopTop] else []) ++ cr, ks ++ kr).
-Proof. destruct s; reflexivity. Qed.
-Lemma simples_code_single base m : simples_code base [m] =
-  let '(c, ks) := simple_code base m in (c ++ (if is_expr_simple m then [] else [opNil]), ks).
 Proof. reflexivity. Qed.
-Lemma simples_code_cons2 base m m2 r2 : simples_code base (m :: m2 :: r2) =
-  let '(c, ks) := simple_code base m in
-  let '(cr, kr) := simples_code (base + length ks) (m2 :: r2) in
-  (c ++ (if is_expr_simple m then [opPopTop] else []) ++ cr, ks ++ kr).
+Lemma block_code_nil k base : block_code k base [] = ([opNil], []).
+Proof. reflexivity. Qed.
+Lemma block_code_cons k base s r : block_code k base (s :: r) = pcode k base (s :: r).
+Proof. reflexivity. Qed.
+Lemma code_SIf k base c t e : stmt_code k base (SIf c t e) =
+  let '(cc, kc) := cexp base c in
+  let '(ct, kt) := block_code k (base + length kc) t in
+  let '(ce, ke) := block_code k (base + length kc + length kt) e in
+  (cc ++ [opPopJumpForwardIfFalse; (nlenN ct + 4)%N] ++ ct ++ [opJumpForward; (nlenN ce + 2)%N] ++ ce, kc ++ kt ++ ke).
+Proof. reflexivity. Qed.
+Lemma code_SWhile k base c b : stmt_code k base (SWhile c b) =
+  let '(cc, kc) := cexp base c in
+  let '(cb, kb) := block_code k (base + length kc) b in
+  (cc ++ [opPopJumpForwardIfFalse; (nlenN cb + 6)%N] ++ cb ++
+   [opPopTop; opJumpBackward; (nlenN cc + 2 + nlenN cb + 1)%N; opNop], kc ++ kb).
 Proof. reflexivity. Qed.
 
-(* a statement never shortens the list of variable values; a declaration extends it by one *)
+(* ---------------------------------------------------------------- assignment *)
 Lemma set_nth_length i v rho : length (set_nth i v rho) = length rho.
 Proof. revert i; induction rho as [|x r IH]; intros [|i]; cbn; auto. Qed.
 Lemma nth_set_nth_same i v rho d : i < length rho -> nth i (set_nth i v rho) d = v.
@@ -64,22 +117,57 @@ Proof. revert i; induction rho as [|x r IH]; intros [|i] H; cbn in *; try lia; [
 Lemma nth_set_nth_other i j v rho d : i <> j -> nth j (set_nth i v rho) d = nth j rho d.
 Proof. revert i j; induction rho as [|x r IH]; intros [|i] [|j] H; cbn; try reflexivity; try lia. apply IH. lia. Qed.
 
-Lemma run_simple_length rho m rho' v : run_simple rho m = inl (rho', v) -> length rho' = length rho.
+(* ---------------------------------------------------------------- what a run does to the variable list *)
+Definition length_ok (n : nat) : Prop :=
+  forall rho s top rho' v, wf_stmt top (length rho) s = true -> run_stmt n rho s = Some (inl (rho', v)) ->
+    length rho' = next_k (length rho) s.
+
+Lemma run_list_length n : length_ok n -> forall l rho last rho' v,
+  wf_stmts false (length rho) l = true -> run_stmts n rho l last = Some (inl (rho', v)) -> length rho' = length rho.
 Proof.
-  destruct m as [i e|e]; cbn [run_simple]; destruct (sev rho e); intros H; inversion H; subst;
-    [apply set_nth_length|reflexivity].
+  intros Hn. induction l as [|s r IH]; intros rho last rho' v Hwf Hr.
+  - cbn in Hr. inversion Hr. reflexivity.
+  - rewrite wf_stmts_cons in Hwf. apply andb_true_iff in Hwf. destruct Hwf as [Hs Hwr].
+    rewrite run_stmts_cons in Hr.
+    destruct (run_stmt n rho s) as [[[rho1 v1]|x]|] eqn:E; try discriminate.
+    pose proof (Hn rho s false rho1 v1 Hs E) as Hl. rewrite (wf_false_next _ _ Hs) in Hl, Hwr.
+    rewrite <- Hl in Hwr. rewrite (IH rho1 v1 rho' v Hwr Hr). exact Hl.
 Qed.
-Lemma run_simples_length : forall l rho last rho' v, run_simples rho l last = inl (rho', v) -> length rho' = length rho.
+
+Lemma run_stmt_length : forall n, length_ok n.
 Proof.
-  induction l as [|m r IH]; intros rho last rho' v H; [inversion H; reflexivity|].
-  rewrite run_simples_cons in H. destruct (run_simple rho m) as [[rho1 v1]|x] eqn:E; [|discriminate].
-  rewrite (IH _ _ _ _ H). exact (run_simple_length _ _ _ _ E).
+  induction n as [|n IH]; intros rho s top rho' v Hwf Hr; [discriminate|].
+  destruct s as [e|i e|e|c t e|c b].
+  - cbn [run_stmt] in Hr. destruct (sev rho e); inversion Hr. rewrite app_length. cbn. lia.
+  - cbn [run_stmt] in Hr. destruct (sev rho e); inversion Hr. apply set_nth_length.
+  - cbn [run_stmt] in Hr. destruct (sev rho e); inversion Hr. reflexivity.
+  - rewrite wf_SIf in Hwf. apply andb_true_iff in Hwf. destruct Hwf as [Hwct Hwe].
+    apply andb_true_iff in Hwct. destruct Hwct as [Hwc Hwt].
+    rewrite run_SIf in Hr. destruct (sev rho c) as [vc|x]; [|discriminate]. cbn [next_k].
+    destruct (struthy vc); [exact (run_list_length n IH t rho VNil rho' v Hwt Hr)|exact (run_list_length n IH e rho VNil rho' v Hwe Hr)].
+  - rewrite wf_SWhile in Hwf. apply andb_true_iff in Hwf. destruct Hwf as [Hwc Hwb].
+    rewrite run_SWhile in Hr. destruct (sev rho c) as [vc|x]; [|discriminate]. cbn [next_k].
+    destruct (struthy vc); [|inversion Hr; reflexivity].
+    destruct (run_stmts n rho b VNil) as [[[rho1 v1]|x]|] eqn:E; try discriminate.
+    pose proof (run_list_length n IH b rho VNil rho1 v1 Hwb E) as Hl.
+    assert (Hw' : wf_stmt top (length rho1) (SWhile c b) = true)
+      by (rewrite wf_SWhile, Hl, Hwc, Hwb; reflexivity).
+    rewrite (IH rho1 (SWhile c b) top rho' v Hw' Hr). cbn [next_k]. exact Hl.
 Qed.
-Lemma run_stmt_length rho s rho' v : run_stmt rho s = inl (rho', v) -> length rho' = next_k (length rho) s.
+
+Lemma run_stmts_length n l rho last rho' v :
+  wf_stmts false (length rho) l = true -> run_stmts n rho l last = Some (inl (rho', v)) -> length rho' = length rho.
+Proof. apply run_list_length. apply run_stmt_length. Qed.
+
+(* a statement that is not an expression has the value nil *)
+Lemma run_stmt_value : forall n rho s rho' v, run_stmt n rho s = Some (inl (rho', v)) -> is_expr_stmt s = false -> v = VNil.
 Proof.
-  destruct s as [e|i e|e|c t e]; cbn [run_stmt next_k].
-  - destruct (sev rho e); intros H; inversion H. rewrite app_length. cbn. lia.
-  - destruct (sev rho e); intros H; inversion H. apply set_nth_length.
-  - destruct (sev rho e); intros H; inversion H. reflexivity.
-  - destruct (sev rho c); [|discriminate]. apply run_simples_length.
+  induction n as [|n IH]; intros rho s rho' v Hr Hx; [discriminate|].
+  destruct s as [e|i e|e|c t e|c b]; try discriminate.
+  - cbn [run_stmt] in Hr. destruct (sev rho e); inversion Hr. reflexivity.
+  - cbn [run_stmt] in Hr. destruct (sev rho e); inversion Hr. reflexivity.
+  - rewrite run_SWhile in Hr. destruct (sev rho c) as [vc|x]; [|discriminate].
+    destruct (struthy vc); [|inversion Hr; reflexivity].
+    destruct (run_stmts n rho b VNil) as [[[rho1 v1]|x]|]; try discriminate.
+    exact (IH rho1 (SWhile c b) rho' v Hr eq_refl).
 Qed.
